@@ -212,7 +212,10 @@ fn eval_with(case: &Case, run: &dyn Fn(&[u8]) -> Obs, via: Via, custom: Option<C
         Pred::Same{same_msg, positions} => {
             let obs: Vec<Obs> = case.srcs.iter().map(|s| run(s)).collect();
             for (i, o) in obs.iter().enumerate() {
-                if o.status == Status::Timeout || o.crashed() {
+                if o.status == Status::Timeout {
+                    return Verdict::Fail(format!("no termination within the time limit (variant {i})"));
+                }
+                if o.crashed() {
                     return Verdict::Fail(format!("variant {i} crashed: {}", o.brief()));
                 }
             }
